@@ -124,7 +124,14 @@ def directed_cases() -> list[dict]:
 def build_qc(case: dict):
     from qiskit import QuantumCircuit
 
-    qc = QuantumCircuit(case["n"])
+    regs = case.get("regs")
+    if regs:
+        # several quantum registers: a qubit's position in the circuit differs from its index in its register
+        from qiskit import QuantumRegister
+
+        qc = QuantumCircuit(*[QuantumRegister(k, f"r{j}") for j, k in enumerate(regs)])
+    else:
+        qc = QuantumCircuit(case["n"])
     for name, qs, th in case["instrs"]:
         if name in ROT or name == "rzz":
             getattr(qc, name)(0.37 if th is None else th, *qs)
@@ -346,18 +353,29 @@ def run(ctx: Ctx) -> None:
     self_test(ctx)
     rng = ctx.rng
     cases = [dict(c, _kind="directed") for c in directed_cases()]
+    # directed: gates on the second / third register of a multi-register circuit (finding F33)
+    for aps in (True, False):
+        cases.append({"n": 4, "aps": aps, "regs": [2, 2], "_kind": "directed",
+                      "instrs": [["x", [2], None], ["h", [3], None], ["cx", [2, 3], None]]})
+        cases.append({"n": 3, "aps": aps, "regs": [1, 1, 1], "_kind": "directed",
+                      "instrs": [["h", [1], None], ["cz", [1, 2], None], ["s", [2], None]]})
     for _ in range(ctx.n(110, 1500)):
         if ctx.out_of_time():
             break
         mal = rng.random() < 0.15
         c = gen_circuit(rng, ctx.n(4, 5), 8, ctx.n(2, 3), mal)
         c["_kind"] = "malformed" if mal else "random"
+        if c["n"] >= 2 and rng.random() < 0.4:
+            # the same instructions on a circuit built from several registers
+            cuts = sorted(rng.sample(range(1, c["n"]), rng.randint(1, min(2, c["n"] - 1))))
+            c["regs"] = [b - a for a, b in zip([0, *cuts], [*cuts, c["n"]])]
         cases.append(c)
     for i, case in enumerate(cases):
         kind = case.pop("_kind")
         probs = run_case(ctx, case)
         ctx.count("stream:" + kind)
         ctx.count("mode:" + ("post_selection" if case["aps"] else "heralded_only"))
+        ctx.count("registers:" + ("several" if case.get("regs") else "one"))
         multi = sum(1 for g, qs, _ in case["instrs"] if len(qs) >= 2)
         key = json.dumps(case, sort_keys=True)
         ctx.case(key, multi >= 1 and kind != "malformed", sample=case if i in (3, 40, 60) else None)
